@@ -157,6 +157,34 @@ def main():
                     ctx.violation('java-builtin-wrong:%s' % op['name'], '%s%s: Java prints %s, definition gives %s' % (op['name'], tup, got, mdl), {'x.as': text})
                 break
     ctx.log('builtin sweep through Java: %d operations, %d tuples' % (nbops, nbt))
+    # ------------------------------------------------ regression sources (once failing, fixed in the repository): Java output = interpreter output
+    # plus one generated source: every ordered pair of binary integer / boolean builtins nested both ways on run-time operands
+    # (operator precedence and associativity of the emitted Java expressions)
+    IOPS = ['SIntPlus', 'SIntMinus', 'SIntTimes', 'SIntAnd', 'SIntOr', 'SIntXOr']; BOPS = ['BoolAnd', 'BoolOr', 'BoolEQ', 'BoolNE']
+    nest = ['-- opts: -Q0', '#include "aldor"', '#include "aldorio"', 'import from Machine;', 'import {'] + \
+           ['  %s: (SInt, SInt) -> SInt;' % o for o in IOPS] + ['  %s: (Bool, Bool) -> Bool;' % o for o in BOPS] + ['  BoolNot: (Bool) -> Bool;', '} from Builtin;',
+            'import from MachineInteger, Boolean, List Boolean, List MachineInteger;',
+            'for x in [6, 3, -5] repeat for y in [5, -12] repeat for z in [9, 2] repeat {']
+    for A in IOPS:
+        for B_ in IOPS:
+            nest.append('\tstdout << (%s(%s(x::SInt, y::SInt), z::SInt)::MachineInteger) << " " << (%s(x::SInt, %s(y::SInt, z::SInt))::MachineInteger) << " ";' % (A, B_, A, B_))
+    nest += ['\tstdout << newline;', '}', 'for a in [true, false] repeat for b in [true, false] repeat for c in [true, false] repeat {']
+    for A in BOPS:
+        for B_ in BOPS:
+            nest.append('\tstdout << (%s(%s(a::Bool, b::Bool), c::Bool)::Boolean) << (%s(a::Bool, %s(b::Bool, c::Bool))::Boolean) << (%s(BoolNot(a::Bool), %s(BoolNot(b::Bool), c::Bool))::Boolean) << " ";' % (A, B_, A, B_, A, B_))
+    nest += ['\tstdout << newline;', '}']
+    kd = os.path.join(VERIF, 'known', 'C12')
+    wsrc = [(fn, open(os.path.join(kd, fn)).read()) for fn in (sorted(os.listdir(kd)) if os.path.isdir(kd) else []) if fn.endswith('.as')] + [('nested-builtin-pairs.as', '\n'.join(nest) + '\n')]
+    for fn, text in wsrc:
+        mo = re.match(r'-- opts: (.*)\n', text); opts = mo.group(1).split() if mo else ['-Q1']
+        wd = ctx.tmp('wit-' + fn[:-3]); os.makedirs(os.path.join(wd, 'out')); open(os.path.join(wd, 'zqw.as'), 'w').write(text)
+        pi = routes.interp_src(b, wd, 'zqw.as', opts)
+        pj1 = routes.aldor(b, opts + ['-Mno-warnings', '-Jmain', '-Fjava', 'zqw.as'], wd, timeout=120)
+        pj2 = run(['javac', '-nowarn', '-cp', CP, '-d', 'out', 'aldorcode/zqw.java'], cwd=wd, timeout=300) if pj1.rc == 0 else pj1
+        pj3 = run(['java', '-Xss8m', '-cp', CP + ':out', 'aldorcode.zqw'], cwd=wd, timeout=120) if pj2.rc == 0 else pj2
+        n += 1
+        if pj3.rc != 0 or routes.norm_out(pi, True) != pj3.out:
+            ctx.violation('java-witness-differs:%s' % fn[:-3], 'interpreter prints %r, Java route %r (%s)' % (routes.norm_out(pi, True)[-200:], pj3.out[-200:], pj3.cause), {'x.as': text})
     if os.environ.get('VF_WRITE_CANARIES'):
         with open(cp_, 'w') as fh:
             for (i, lv, name) in supported:
